@@ -1,0 +1,11 @@
+//go:build verif
+
+package litestream
+
+import "context"
+
+// VerifPageMap exposes pageMap with its byte budget so the external
+// verification harness can quantify over MaxSyncWALBytes limits.
+func (r *WALReader) VerifPageMap(ctx context.Context, maxBytes int64) (m map[uint32]int64, maxOffset int64, commit uint32, limited bool, err error) {
+	return r.pageMap(ctx, maxBytes)
+}
